@@ -37,20 +37,44 @@ type histDesc struct {
 	Ops   []opDesc   `json:"ops"`
 }
 
-func isParam(k string) bool { return k == "pval" || k == "vnode" }
+func isParam(k string) bool { return k == "pval" || k == "vnode" || isCompound(k) }
+
+// parameter.Value[T] with T decoded element-wise by encoding/json: []int, map[string]int, struct{A, B int}
+func isCompound(k string) bool { return k == "pslice" || k == "pmap" || k == "pstruct" }
+
+// what a consumer sees of a parameter that was given v: the int itself, or an order-sensitive hash of the
+// elements of the compound value built from v
+func paramVal(kind string, v int) int {
+	switch kind {
+	case "pslice":
+		return encInts([]int{v, v + 1, v % 7})
+	case "pmap", "pstruct":
+		return encInts([]int{v, v + 1})
+	}
+	return v
+}
+func encInts(xs []int) int {
+	acc := 7
+	for _, x := range xs {
+		acc = (acc*131 + x) % hmod
+	}
+	return acc
+}
 
 // ---------------- harness mirror of wiring and parameter values (independent of polyform) ----------
 type mirror struct {
 	desc  []nodeDesc
 	ports [][][]int // per node, per field (declaration order): connected node ids
-	val   []int
+	val   []int     // what consumers see (paramVal)
+	raw   []int     // the v last given to a parameter
 }
 
 func newMirror(ns []nodeDesc) *mirror {
-	m := &mirror{desc: ns, ports: make([][][]int, len(ns)), val: make([]int, len(ns))}
+	m := &mirror{desc: ns, ports: make([][][]int, len(ns)), val: make([]int, len(ns)), raw: make([]int, len(ns))}
 	for i, n := range ns {
 		if isParam(n.Kind) {
-			m.val[i] = n.Init
+			m.val[i] = paramVal(n.Kind, n.Init)
+			m.raw[i] = n.Init
 		} else {
 			m.ports[i] = make([][]int, len(kinds[kindIndex(n.Kind)].Fields))
 		}
@@ -138,8 +162,11 @@ func (m *mirror) apply(o opDesc) bool {
 		if !isParam(m.desc[n].Kind) {
 			return false
 		}
-		m.val[n] = o.V
+		m.val[n] = paramVal(m.desc[n].Kind, o.V)
+		m.raw[n] = o.V
 		return true
+	case "badset":
+		return false // a rejected update changes nothing
 	}
 	if isParam(m.desc[n].Kind) {
 		return false
@@ -176,6 +203,20 @@ func (m *mirror) apply(o opDesc) bool {
 	return true
 }
 
+// struct-valued parameter
+type pairAB struct{ A, B int }
+
+// int view of a compound parameter for the harness processors: Node() is the repository's parameter node
+// (its Version()/State() drive Outdated()), Value() hashes the current compound value
+type adapter struct {
+	node nodes.Node
+	val  func() int
+}
+
+func (a adapter) Value() int       { return a.val() }
+func (a adapter) Node() nodes.Node { return a.node }
+func (a adapter) Port() string     { return "Out" }
+
 // ---------------- running one history on the implementation ----------------
 type rowT struct {
 	ver   int
@@ -192,7 +233,46 @@ func buildLive(ns []nodeDesc) []*live {
 			ls[i] = &live{node: p, ref: p.Out(), value: p.Value, set: func(v int) error {
 				_, err := p.ApplyMessage([]byte(strconv.Itoa(v)))
 				return err
+			}, bad: func(v int) error {
+				_, err := p.ApplyMessage([]byte(`"oops"`))
+				return err
 			}}
+		case "pslice":
+			p := &parameter.Value[[]int]{Name: fmt.Sprintf("p%d", i), DefaultValue: []int{n.Init, n.Init + 1, n.Init % 7}}
+			ls[i] = &live{node: p, ref: adapter{node: p, val: func() int { return encInts(p.Value()) }},
+				value: func() int { return encInts(p.Value()) },
+				set: func(v int) error {
+					_, err := p.ApplyMessage([]byte(fmt.Sprintf("[%d,%d,%d]", v, v+1, v%7)))
+					return err
+				},
+				bad: func(v int) error {
+					_, err := p.ApplyMessage([]byte(fmt.Sprintf("[%d,%d,\"oops\"]", v+5, v+6)))
+					return err
+				}}
+		case "pmap":
+			p := &parameter.Value[map[string]int]{Name: fmt.Sprintf("p%d", i), DefaultValue: map[string]int{"a": n.Init, "b": n.Init + 1}}
+			enc := func() int { m := p.Value(); return encInts([]int{m["a"], m["b"]}) }
+			ls[i] = &live{node: p, ref: adapter{node: p, val: enc}, value: enc,
+				set: func(v int) error {
+					_, err := p.ApplyMessage([]byte(fmt.Sprintf(`{"a":%d,"b":%d}`, v, v+1)))
+					return err
+				},
+				bad: func(v int) error {
+					_, err := p.ApplyMessage([]byte(fmt.Sprintf(`{"a":%d,"b":"oops"}`, v+5)))
+					return err
+				}}
+		case "pstruct":
+			p := &parameter.Value[pairAB]{Name: fmt.Sprintf("p%d", i), DefaultValue: pairAB{A: n.Init, B: n.Init + 1}}
+			enc := func() int { x := p.Value(); return encInts([]int{x.A, x.B}) }
+			ls[i] = &live{node: p, ref: adapter{node: p, val: enc}, value: enc,
+				set: func(v int) error {
+					_, err := p.ApplyMessage([]byte(fmt.Sprintf(`{"A":%d,"B":%d}`, v, v+1)))
+					return err
+				},
+				bad: func(v int) error {
+					_, err := p.ApplyMessage([]byte(fmt.Sprintf(`{"A":%d,"B":"oops"}`, v+5)))
+					return err
+				}}
 		case "vnode":
 			p := nodes.Value(n.Init)
 			ls[i] = &live{node: p, ref: p.Out(), value: func() int { return p.Value() }, set: func(v int) error { p.Set(v); return nil }}
@@ -236,10 +316,12 @@ func table(ls []*live) ([]rowT, string) {
 	return t, fail
 }
 
-func coqOp(o opDesc) string {
+func coqOp(o opDesc, kind string) string {
 	switch o.Op {
 	case "set":
-		return fmt.Sprintf("opS %d %d", o.N, o.V)
+		return fmt.Sprintf("opS %d %d", o.N, paramVal(kind, o.V))
+	case "badset":
+		return fmt.Sprintf("opX %d", o.N)
 	case "connect":
 		return fmt.Sprintf("opC %d %s%%string %d", o.N, hx.CoqString(o.Port), o.Src)
 	case "disconnect":
@@ -260,7 +342,7 @@ func runHist(run *hx.Run, d histDesc) {
 			b.WriteString(";")
 		}
 		if isParam(n.Kind) {
-			fmt.Fprintf(&b, "dP %d", n.Init)
+			fmt.Fprintf(&b, "dP %d", paramVal(n.Kind, n.Init))
 		} else {
 			fs := []string{}
 			for _, f := range kinds[kindIndex(n.Kind)].Fields {
@@ -319,6 +401,15 @@ func runHist(run *hx.Run, d histDesc) {
 				if err := l.set(o.V); err != nil {
 					panic(err)
 				}
+			case "badset":
+				if l.bad == nil {
+					panic(fmt.Errorf("harness: node %d takes no update messages", o.N))
+				}
+				err := l.bad(o.V)
+				if err == nil {
+					panic(fmt.Errorf("harness: malformed update of node %d was accepted", o.N))
+				}
+				panic(err)
 			case "connect":
 				l.node.SetInput(o.Port, nodes.Output{NodeOutput: ls[o.Src].ref})
 			case "disconnect":
@@ -371,7 +462,7 @@ func runHist(run *hx.Run, d histDesc) {
 				ss = fmt.Sprintf("(Some %d%%Z)", sv)
 			}
 		}
-		fmt.Fprintf(&b, "(%s, Obs %s %s %s %s [%s])", coqOp(o), hx.CoqBool(!acc), hx.CoqBool(panicked), vs, ss, strings.Join(chg, ";"))
+		fmt.Fprintf(&b, "(%s, Obs %s %s %s %s [%s])", coqOp(o, d.Nodes[o.N].Kind), hx.CoqBool(!acc), hx.CoqBool(panicked), vs, ss, strings.Join(chg, ";"))
 	}
 	b.WriteString("]")
 	d.Ops = kept
